@@ -621,6 +621,122 @@ theorem agrees_with_plain (s : Store) (f : Nat) : ∀ (st : List Nat) (e : E),
         · rename_i r hr
           rw [ha.2 h]
 
+/-- the memories change nothing about the shape of the graph: as many thunks, each with the body it had -/
+def SameShape (s s' : Store) : Prop :=
+  s'.thunks.length = s.thunks.length ∧ ∀ (j : Nat) (t : Th), s.thunks[j]? = some t → ∃ t', s'.thunks[j]? = some t' ∧ t'.fn = t.fn
+
+theorem SameShape.refl (s : Store) : SameShape s s := ⟨rfl, fun _ t h => ⟨t, h, rfl⟩⟩
+
+theorem SameShape.trans {a b c : Store} (h1 : SameShape a b) (h2 : SameShape b c) : SameShape a c := by
+  refine ⟨h2.1.trans h1.1, ?_⟩
+  intro j t ht
+  obtain ⟨t1, ht1, hf1⟩ := h1.2 j t ht
+  obtain ⟨t2, ht2, hf2⟩ := h2.2 j t1 ht1
+  exact ⟨t2, ht2, hf2.trans hf1⟩
+
+theorem shape_setThunk (s : Store) (j : Nat) (t0 t' : Th) (h0 : s.thunks[j]? = some t0) (hfn : t'.fn = t0.fn) :
+    SameShape s (setThunk s j t') := by
+  refine ⟨by simp [setThunk], ?_⟩
+  intro i t ht
+  by_cases hij : i = j
+  · subst hij
+    have hlt : i < s.thunks.length := by
+      rcases Nat.lt_or_ge i s.thunks.length with h | h
+      · exact h
+      · rw [List.getElem?_eq_none h] at ht; cases ht
+    refine ⟨t', by simp [setThunk, hlt], ?_⟩
+    rw [h0] at ht; cases ht; exact hfn
+  · refine ⟨t, ?_, rfl⟩
+    simp only [setThunk]
+    rw [List.getElem?_set_ne (Ne.symm hij)]; exact ht
+
+theorem bound_of_shape {s s' : Store} (h : SameShape s s') (M : Nat)
+    (hM : ∀ (j : Nat) (t : Th), s.thunks[j]? = some t → esize t.fn ≤ M) :
+    ∀ (j : Nat) (t : Th), s'.thunks[j]? = some t → esize t.fn ≤ M := by
+  intro j t' ht'
+  have hlt : j < s.thunks.length := by
+    rcases Nat.lt_or_ge j s'.thunks.length with h' | h'
+    · rw [h.1] at h'; exact h'
+    · rw [List.getElem?_eq_none h'] at ht'; cases ht'
+  obtain ⟨t1, ht1, hf⟩ := h.2 j s.thunks[j] (List.getElem?_eq_getElem hlt)
+  rw [ht'] at ht1; cases ht1
+  rw [hf]; exact hM j _ (List.getElem?_eq_getElem hlt)
+
+/-- the code itself (stack and both memories) ends on every graph, and leaves the graph as it was -/
+theorem memo_ends_aux (M : Nat) (f : Nat) : ∀ (s : Store) (st : List Nat) (e : E),
+    (∀ (j : Nat) (t : Th), s.thunks[j]? = some t → esize t.fn ≤ M) →
+    esize e + free st s.thunks.length * (M + 1) ≤ f →
+    (evalAwMemo s st f e).1 ≠ .fuel ∧ SameShape s (evalAwMemo s st f e).2 := by
+  induction f with
+  | zero => intro s st e _ h; have := esize_pos e; omega
+  | succ f ih =>
+    intro s st e hM h
+    cases e with
+    | lit k => simp [evalAwMemo, SameShape.refl]
+    | prom i => simp only [evalAwMemo]; split <;> simp [SameShape.refl]
+    | thunk j =>
+      simp only [evalAwMemo]
+      split
+      · simp [SameShape.refl]
+      · rename_i hnin
+        split
+        · simp [SameShape.refl]
+        · rename_i t ht
+          split
+          · simp [SameShape.refl]
+          · split
+            · simp [SameShape.refl]
+            · have hjn : j < s.thunks.length := by
+                rcases Nat.lt_or_ge j s.thunks.length with h' | h'
+                · exact h'
+                · rw [List.getElem?_eq_none h'] at ht; cases ht
+              have hfree := free_cons_lt j st s.thunks.length hjn (by simpa using hnin)
+              have hsz := hM j t ht
+              have hfuel : esize t.fn + free (j :: st) s.thunks.length * (M + 1) ≤ f := by
+                have hmul := Nat.mul_le_mul_right (M + 1) hfree
+                rw [Nat.add_mul] at hmul
+                simp only [esize] at h
+                generalize free (j :: st) s.thunks.length * (M + 1) = X at *
+                generalize free st s.thunks.length * (M + 1) = Y at *
+                omega
+              have hrec := ih s (j :: st) t.fn hM hfuel
+              generalize evalAwMemo s (j :: st) f t.fn = r at hrec
+              obtain ⟨r1, s1⟩ := r
+              obtain ⟨t1, ht1, hf1⟩ := hrec.2.2 j t ht
+              have hset : ∀ t' : Th, t'.fn = t1.fn → SameShape s (setThunk s1 j t') :=
+                fun t' hf' => SameShape.trans hrec.2 (shape_setThunk s1 j t1 t' ht1 hf')
+              cases r1 with
+              | value v => exact ⟨by simp, hset _ (by simp [ht1])⟩
+              | notReady => exact ⟨by simp, hset _ (by simp [ht1])⟩
+              | cycle => exact ⟨by simp, hset _ (by simp [ht1])⟩
+              | fuel => exact absurd rfl hrec.1
+    | add a b =>
+      simp only [esize] at h
+      have ha := ih s st a hM (by omega)
+      simp only [evalAwMemo]
+      generalize evalAwMemo s st f a = ra at ha
+      obtain ⟨ra1, s1⟩ := ra
+      cases ra1 with
+      | value x =>
+        dsimp only at ha ⊢
+        have hM1 := bound_of_shape ha.2 M hM
+        have hb := ih s1 st b hM1 (by rw [ha.2.1]; omega)
+        generalize evalAwMemo s1 st f b = rb at hb ⊢
+        obtain ⟨rb1, s2⟩ := rb
+        cases rb1 with
+        | value y => exact ⟨by simp, SameShape.trans ha.2 hb.2⟩
+        | notReady => exact ⟨by simp, SameShape.trans ha.2 hb.2⟩
+        | cycle => exact ⟨by simp, SameShape.trans ha.2 hb.2⟩
+        | fuel => exact absurd rfl hb.1
+      | notReady => exact ⟨by simp, ha.2⟩
+      | cycle => exact ⟨by simp, ha.2⟩
+      | fuel => exact absurd rfl ha.1
+
+/-- every wait of the code ends, on every graph of thunks, within a fuel that depends only on sizes -/
+theorem memo_wait_ends (s : Store) (M : Nat) (hM : ∀ (j : Nat) (t : Th), s.thunks[j]? = some t → esize t.fn ≤ M) (e : E) :
+    (evalAwMemo s [] (esize e + s.thunks.length * (M + 1)) e).1 ≠ .fuel :=
+  (memo_ends_aux M _ s [] e hM (by simp [free_nil])).1
+
 /-- the premises are met and the conclusions are not empty: `a = b + 1`, `b = a` is reported, and it is a cycle -/
 def twoCycle : Store := ⟨[none], [⟨.add (.thunk 1) (.lit 1), none, none⟩, ⟨.thunk 0, none, none⟩], 0⟩
 example : evalAw twoCycle [] 10 (.thunk 0) = .cycle := by decide
